@@ -204,6 +204,12 @@ def worker_main(argv):
         calls = ['%s:%d %s' % (os.path.basename(f.filename), f.lineno, f.name) for f in tb[-6:]]
         ctx.violation('library-internal-error', {'where': where, 'exception': type(e).__name__, 'stack': calls},
                       '%s: %s raised at %s and escaped to the caller' % (type(e).__name__, e, where))
+    except BaseException as e:
+        # a guard lock found the calling thread re-acquiring a non-reentrant lock it already holds (the call could never
+        # return): a verdict derived from lock ownership, wherever in the workload it surfaced
+        if type(e).__name__ != 'SelfDeadlock':
+            raise
+        ctx.violation('deadlock', {'where': 'outside the workload\'s own handlers'}, str(e))
     with open(a.out, 'w') as f:
         json.dump(ctx.dump(), f)
     return 0
